@@ -81,7 +81,8 @@ pub fn payloads(ix: &Index, role: &Role) -> Vec<Option<String>> {
 }
 
 pub fn run(ix: &Index, role: &Role, payload: Option<&str>, mode: CollMode, seed: &[(String, bool)]) -> RoleRun {
-    let ev = mk_ev(ix);
+    let mut ev = mk_ev(ix);
+    if let CollMode::InnerUnrolled(n) = mode { ev.inner_unroll = Some(n); }
     let outs = run_role(&ev, ix, role, payload, mode, seed);
     let mut paths = Vec::new();
     let mut infeasible = 0usize;
